@@ -238,10 +238,13 @@ pub fn pwb_payload(rng: &mut Rng, mac: [u8; 6], letter: u8, req: u16, sent: &[(u
     // channels over threshold: any subset of the channels sent (forced channels and neighbours of a hit
     // are sent without being over threshold); every sent channel must reach its pad either way
     // (seed C10-8 iterated over the threshold mask)
-    f.thr = match rng.below(4) {
+    let any79 = ((rng.next() as u128) << 64 | rng.next() as u128) & ((1u128 << 79) - 1);
+    f.thr = match rng.below(6) {
         0 => mask,
         1 => 0,
-        _ => mask & ((rng.next() as u128) << 64 | rng.next() as u128),
+        2 => any79,                 // any mask, also bits of channels that were not sent
+        3 => mask | (any79 & (any79 >> 3)),
+        _ => mask & any79,
     };
     f.waves = sent.iter().map(|(_, w)| w.clone()).collect();
     c05::encode(&f)
@@ -452,7 +455,7 @@ pub const RUNS: [u32; 25] = [
 /// class with complete calibration, and the simulation number).
 const SWEEP_RUNS: [u32; 2] = [u32::MAX, 11084];
 
-fn wave(rng: &mut Rng, n: usize) -> Vec<i16> {
+pub fn wave(rng: &mut Rng, n: usize) -> Vec<i16> {
     (0..n)
         .map(|_| match rng.below(16) {
             0 => i16::MIN,
@@ -633,7 +636,8 @@ fn injections(s: &mut Session, rng: &mut Rng, run: u32) {
         // a C payload under a B name: B banks are ignored by name, so the waveform is lost —
         // not an inconsistency the property lists; no demand
         add(s, "renamed-wire-bank-to-bv", run, &b, Expect::Free);
-        for bad in ["C99A", "C09W", "C0900", "c09A", "XXXX", "", "C09", "ATAX", "PC9", "PCAA", "PC99", "TRBB", "MCVY", "C09é"] {
+        for bad in ["C99A", "C09W", "C0900", "c09A", "XXXX", "", "C09", "ATAX", "PC9", "PCAA", "PC99", "TRBB", "MCVY", "C09é",
+                    "B09G", "B99A", "B15A", "B09a", "BVXX", "B09", "B09AA", "B", "BB", "B0+0", "TRB", "MCV", "MCVXX", "ATA", "ATATA"] {
             let mut b = base.clone();
             b[i].0 = bad.to_string();
             add(s, "renamed-unknown", run, &b, Expect::MustReject("unknown bank name"));
